@@ -441,6 +441,9 @@ func Modules(t *rapid.T, o ModOpts) *ModuleSet {
 		var ch Chooser = Canonical{}
 		if o.Layout && rapid.IntRange(0, 3).Draw(t, "layout") == 0 {
 			ch = &simpleRapidChooser{t: t}
+		} else if o.Layout && o.MultiDup && rapid.IntRange(0, 5).Draw(t, "layoutCROnly") == 0 {
+			// a file whose only line end is a lone carriage return: one single line for every '\n'-based reader
+			ch = Forced{"crlf": 4, "cr_only": 4}
 		} else if o.Layout && o.Decoys && rapid.IntRange(0, 2).Draw(t, "layoutMultiLine") == 0 {
 			// position lookups scan the raw text: declarations whose type restrictions continue on further lines (and
 			// everything else the layout may do) in front of the declaration that is looked for
